@@ -35,9 +35,11 @@ const (
 	oDiesLater  = "dies-later"          // healthy, the peer closes it after a while
 	oLocalClose = "closed-locally"      // healthy, the proxy side closes it after a while (ManagedMuxSession.Close)
 	oGarbage    = "peer-talks-garbage"  // Ping -> protocol error
+	oNeverReads = "peer-never-reads"    // Ping cannot even be written -> ErrConnectionWriteTimeout
+	oReadsThenCloses = "peer-reads-ping-then-closes"
 )
 
-var outcomes = []string{oHealthy, oDialFail, oPeerCloses, oSilent, oSetupErr, oDiesLater, oLocalClose, oGarbage}
+var outcomes = []string{oHealthy, oDialFail, oPeerCloses, oSilent, oSetupErr, oDiesLater, oLocalClose, oGarbage, oNeverReads, oReadsThenCloses}
 
 type muxCase struct {
 	Name     string   `json:"name"`
@@ -155,6 +157,16 @@ func (w *world) peer(i int, out string, b net.Conn) {
 			}
 			// silent: swallow the ping without answering
 		}
+	case oNeverReads:
+		// holds the connection open without ever reading: the proxy's first write blocks until its write timeout
+		<-w.closeCh
+		time.Sleep(time.Minute)
+		return
+	case oReadsThenCloses:
+		buf := make([]byte, 12)
+		io.ReadFull(b, buf)
+		b.Close()
+		return
 	case oGarbage:
 		go io.Copy(io.Discard, b)
 		b.Write([]byte("this is not yamux, not even close................"))
